@@ -79,6 +79,7 @@ type Inc struct {
 	bootFaults  int64
 	cfgHist     []cfgHistRec
 	lastCfgIdx  uint64
+	cfgChangedAt time.Duration
 }
 
 type cfgHistRec struct {
@@ -130,6 +131,7 @@ type World struct {
 	idleRounds int
 	finishing  bool
 	stopOnClass string
+	schedLog    io.Writer
 	s2         bool // scenario S2: one real server, the simulator plays its peers
 }
 
@@ -410,6 +412,10 @@ func (w *World) loop(stop func() bool, mainPhase bool) {
 				w.flt.maybeInject()
 			}
 		}
+		// the root's own actions above (crash, boot, heal, unstall ...) may have woken or
+		// created goroutines: wait until they have parked before looking at the parked set
+		synctest.Wait()
+		sim.RootTurn()
 		cands := sim.Candidates()
 		if len(cands) == 0 {
 			// nothing runnable: let virtual time move to the next timer
@@ -429,6 +435,9 @@ func (w *World) loop(stop func() bool, mainPhase bool) {
 			g = cands[0]
 		} else {
 			g = cands[w.ch.Choose(simrt.SSched, len(cands))]
+		}
+		if w.schedLog != nil {
+			fmt.Fprintf(w.schedLog, "%d %d %s %s n=%d t=%d\n", sim.Steps, sim.Seq(), g.ID, g.Site, len(cands), w.now())
 		}
 		sim.Release(g)
 	}
